@@ -38,7 +38,11 @@ def dtype_is_object(d):
 def dtype_is_numeric(d):
     return z3.And(d != OBJECT_DTYPE, z3.Not(dtype_is_string(d)))
 val_of_int = z3.Function('val_of_int', I, ValSort)          # cell holding the Python int i
-col_index = z3.Function('col_index', sort_of(LV), ValSort, I)   # position of a column name
+
+
+def col_index(cols_t, nm):
+    """position of a column name (first occurrence) = list.index"""
+    return L_index(LV, cols_t, nm)
 
 
 def dtype_axioms(with_ints=True):
@@ -108,37 +112,47 @@ def column_position(ex, st, cols, name, node, label='column-exists'):
     nm = to_val(name).t
     ex.oblige(st, 'safety', label, L_has(LV, cols.t, nm), node)
     p = col_index(cols.t, nm)
-    j = z3.Int('j!cp')
-    st.assume(z3.And(p >= 0, p < L_len(LV, cols.t), L_get(LV, cols.t, p) == nm))
-    st.assume(z3.ForAll([j], z3.Implies(z3.And(j >= 0, j < p), L_get(LV, cols.t, j) != nm)))
+    for f in L_index_facts(LV, cols.t, nm):
+        st.assume(f)
     return p
 
 
-def select_rows(ex, st, rows, index, keep, name):
-    """Rows (and their index labels) for which keep(j) holds, in order.  Returns
-    (new_rows V, new_index V, src function, dst function)."""
-    n = L_len(rows.ty, rows.t)
-    nr = fresh(rows.ty, name + '_rows')
-    ni = fresh(LV, name + '_index')
-    src = z3.Function(fresh_name('src'), I, I)
-    dst = z3.Function(fresh_name('dst'), I, I)
-    m = L_len(rows.ty, nr.t)
+sel_rows = z3.Function('sel_rows', sort_of(ROWS), sort_of(LB), sort_of(ROWS))    # rows[mask]
+sel_index = z3.Function('sel_index', sort_of(LV), sort_of(LB), sort_of(LV))
+sel_src = z3.Function('sel_src', sort_of(LB), I, I)      # position in the result -> position in the source
+sel_dst = z3.Function('sel_dst', sort_of(LB), I, I)      # position in the source -> position in the result
+
+
+def selection_facts(rows_t, index_t, mask_t):
+    """facts defining sel_rows(rows, mask) / sel_index(index, mask): the rows whose mask entry is
+    True, in order.  sel_src / sel_dst depend on the mask only."""
+    n = L_len(ROWS, rows_t)
+    nr, ni = sel_rows(rows_t, mask_t), sel_index(index_t, mask_t)
+    m = L_len(ROWS, nr)
+    src = lambda q: sel_src(mask_t, q)
+    dst = lambda q: sel_dst(mask_t, q)
+    keep = lambda q: L_get(LB, mask_t, q)
     p, p2, j = z3.Ints('p!sel p2!sel j!sel')
-    st.assume(z3.And(m >= 0, m <= n, L_len(LV, ni.t) == m))
-    st.assume(z3.ForAll([p], z3.Implies(z3.And(p >= 0, p < m), z3.And(
-        src(p) >= 0, src(p) < n, keep(src(p)), dst(src(p)) == p,
-        L_get(rows.ty, nr.t, p) == L_get(rows.ty, rows.t, src(p)),
-        L_get(LV, ni.t, p) == L_get(LV, index.t, src(p)))), patterns=[src(p)]))
-    st.assume(z3.ForAll([p], z3.Implies(z3.And(p >= 0, p < m),
-                                        L_get(rows.ty, nr.t, p) == L_get(rows.ty, rows.t, src(p))),
-                        patterns=[L_get(rows.ty, nr.t, p)]))
-    st.assume(z3.ForAll([p, p2], z3.Implies(z3.And(p >= 0, p < p2, p2 < m), src(p) < src(p2)),
-                        patterns=[z3.MultiPattern(src(p), src(p2))]))
-    st.assume(z3.ForAll([j], z3.Implies(z3.And(j >= 0, j < n, keep(j)), z3.And(
-        dst(j) >= 0, dst(j) < m, src(dst(j)) == j)), patterns=[dst(j)]))
-    st.assume(z3.Implies(z3.ForAll([j], z3.Implies(z3.And(j >= 0, j < n), z3.Not(keep(j)))), m == 0))
-    st.assume(z3.Implies(z3.ForAll([j], z3.Implies(z3.And(j >= 0, j < n), keep(j))), m == n))
-    return nr, ni, src, dst
+    return [
+        z3.And(m >= 0, m <= n, L_len(LV, ni) == m),
+        z3.ForAll([p], z3.Implies(z3.And(p >= 0, p < m), z3.And(
+            src(p) >= 0, src(p) < n, keep(src(p)), dst(src(p)) == p,
+            L_get(ROWS, nr, p) == L_get(ROWS, rows_t, src(p)),
+            L_get(LV, ni, p) == L_get(LV, index_t, src(p)))), patterns=[src(p), L_get(ROWS, nr, p)]),
+        z3.ForAll([p, p2], z3.Implies(z3.And(p >= 0, p < p2, p2 < m), src(p) < src(p2)),
+                  patterns=[z3.MultiPattern(src(p), src(p2))]),
+        z3.ForAll([j], z3.Implies(z3.And(j >= 0, j < n, keep(j)), z3.And(
+            dst(j) >= 0, dst(j) < m, src(dst(j)) == j)), patterns=[dst(j)]),
+        z3.Implies(z3.ForAll([j], z3.Implies(z3.And(j >= 0, j < n), z3.Not(keep(j))), patterns=[keep(j)]), m == 0),
+        z3.Implies(z3.ForAll([j], z3.Implies(z3.And(j >= 0, j < n), keep(j)), patterns=[keep(j)]), m == n),
+    ]
+
+
+def select_rows(ex, st, rows, index, mask_t):
+    """(new_rows V, new_index V) for the boolean mask list term."""
+    for f in selection_facts(rows.t, index.t, mask_t):
+        st.assume(f)
+    return V(ROWS, sel_rows(rows.t, mask_t)), V(LV, sel_index(index.t, mask_t))
 
 
 # ------------------------------------------------------------------ isinstance
@@ -247,12 +261,11 @@ def df_project(ex, st, df, names, node):
     return out
 
 
-def df_mask(ex, st, df, mask_at, mlen, node, what):
+def df_mask(ex, st, df, mask_t, node, what):
     rows, index = rec_field(df, 'rows'), rec_field(df, 'index')
-    ex.oblige(st, 'safety', 'mask-length-matches', mlen == L_len(ROWS, rows.t), node)
-    nr, ni, src, dst = select_rows(ex, st, rows, index, mask_at, 'masked')
+    ex.oblige(st, 'safety', 'mask-length-matches', L_len(LB, mask_t) == L_len(ROWS, rows.t), node)
+    nr, ni = select_rows(ex, st, rows, index, mask_t)
     note(ex, what)
-    st.aux['last_selection'] = (src, dst)
     return V(DF, R_mk(DF, cols=R_get(DF, df.t, 'cols'), rows=nr.t, index=ni.t,
                       dtypes=R_get(DF, df.t, 'dtypes')))
 
@@ -265,10 +278,10 @@ def rec_subscript(ex, st, base, k, node):
             return df_project(ex, st, base, k, node)
         if is_bser(k):
             vals = R_get(BSER, k.t, 'vals')
-            return df_mask(ex, st, base, lambda j: L_get(LB, vals, j), L_len(LB, vals), node,
+            return df_mask(ex, st, base, vals, node,
                            'df[boolean Series] keeps exactly the rows whose mask entry is True, in order, with their index labels')
         if isinstance(k.ty, ListT) and isinstance(k.ty.elem, BoolT):
-            return df_mask(ex, st, base, lambda j: L_get(LB, k.t, j), L_len(LB, k.t), node,
+            return df_mask(ex, st, base, k.t, node,
                            'df[list of bool] keeps exactly the rows whose mask entry is True, in order, with their index labels')
         raise Undecided('DataFrame indexed by %r (line %d)' % (k.ty, node.lineno))
     return None
@@ -323,11 +336,10 @@ def m_dropna(ex, st, recv, args, kw, e):
         raise Undecided('dropna(subset=...) with other than one column')
     name = V(VAL, L_get(LV, subset.t, z3.IntVal(0)))
     cols, rows, index = rec_field(recv, 'cols'), rec_field(recv, 'rows'), rec_field(recv, 'index')
-    p = column_position(ex, st, cols, name, e)
-    keep = lambda j: z3.Not(N.val_isnull(L_get(LV, L_get(ROWS, rows.t, j), p)))
-    nr, ni, src, dst = select_rows(ex, st, rows, index, keep, 'dropna')
+    ser = df_column(ex, st, recv, name, e)
+    mask = isnull_of(ex, st, ser, True, e)
+    nr, ni = select_rows(ex, st, rows, index, R_get(BSER, mask.t, 'vals'))
     note(ex, 'dropna(axis=0, subset=[a]) keeps exactly the rows whose cell a is not null, in order')
-    st.aux['last_selection'] = (src, dst)
     return V(DF, R_mk(DF, cols=cols.t, rows=nr.t, index=ni.t, dtypes=R_get(DF, recv.t, 'dtypes')))
 
 
